@@ -16,6 +16,23 @@ package validation
 //@ prop C18 C09
 //@ ensures[domains-sorted-by-the-length-comparator] called(sort.Slice)
 //@ ensures[refresh-must-be-shorter-than-lifetime] o.Expire != 0 && o.Refresh >= o.Expire ==> len(result) > 0
+// what request handling assumes about validated cookie options (the requires[config:...] clauses of pkg/cookies and
+// pkg/sessions/cookie) is established here: no message means the caller's options satisfy it
+//@ prop C19 C18
+//@ ensures[config:samesite-validated] len(result) == 0 ==> o.SameSite == "" || o.SameSite == "none" || o.SameSite == "lax" || o.SameSite == "strict"
+//@ ensures[config:cookie-name-at-most-256-bytes] len(result) == 0 ==> len(o.Name) <= 256
+//@ ensures[config:secret-present] len(result) == 0 ==> o.Secret != ""
+
+//@ func validateCookieName
+//@ nomod
+//@ prop C19 C18
+//@ ensures[long-names-are-rejected] len(name) > 256 ==> len(result) > 0
+
+//@ func validateCookieSecret
+//@ nomod
+//@ prop C19 C02
+//@ ensures[missing-secret-is-rejected] secret == "" ==> len(result) > 0
+//@ ensures[only-aes-key-sizes-pass] len(result) == 0 ==> len(ret(SecretBytes)) == 16 || len(ret(SecretBytes)) == 24 || len(ret(SecretBytes)) == 32
 
 //@ prop C18
 //@ lemma[length-order-irreflexive] forall a int :: !(a > a)
